@@ -17,8 +17,9 @@ def run(ctx):
     r = tlc.run("Bootstrap", "Bootstrap.cfg", scratch=ctx.scratch, env={"CASES": pj}, timeout=600, parse_trace=False)
     if not r.ok:
         if r.violated in ("ShippedIsSelfContained", "SourceBootstrapNeedsNothing") or "ShippedIsSelfContained" in r.error:
-            bad = {u["name"]: {"non_stdlib_imports": [m for m in u["needs"] if m not in proj["stdlib"]], "unbalanced_fallback_imports": u["unbalanced"]}
-                   for u in proj["units"] if [m for m in u["needs"] if m not in proj["stdlib"]] or u["unbalanced"]}
+            bad = {u["name"]: {"non_stdlib_imports": [m for m in u["needs"] if m not in proj["stdlib"]], "unbalanced_fallback_imports": u["unbalanced"],
+                             "names_not_bound_in_the_shipped_text": u["unresolved"]}
+                   for u in proj["units"] if [m for m in u["needs"] if m not in proj["stdlib"]] or u["unbalanced"] or u["unresolved"]}
             ctx.violation(f"C15.shipped-source-not-self-contained: {json.dumps(bad)}", {"projection": bad})
         else:
             ctx.machinery(f"TLC Bootstrap: {r.violated} {r.error[:500]}")
@@ -37,6 +38,11 @@ def run(ctx):
     # with execnet's own tracing switched on (the shipped text then runs its debug branches on the bare interpreter)
     jobs.append(("python", "thread", present[vers[-1]], ctx.seed, False, {"EXECNET_DEBUG": "2"}))
     jobs.append(("via", "thread", present[vers[0]], ctx.seed, False, {"EXECNET_DEBUG": "1"}))
+    # a child whose standard streams are not UTF-8 (legacy C locale, no coercion): the shipped text still has to arrive intact
+    # (-I would make the child ignore PYTHONUTF8 / PYTHONCOERCECLOCALE: these children run with -S only, from "/", without PYTHONPATH)
+    clocale = {"LC_ALL": "C", "LANG": "C", "PYTHONCOERCECLOCALE": "0", "PYTHONUTF8": "0", "_DROP_PYTHONPATH": "1"}
+    jobs.append(("python", "thread", [present[vers[-1]][0], "-S"], ctx.seed, False, clocale))
+    jobs.append(("via", "thread", [present[vers[0]][0], "-S"], ctx.seed, False, clocale))
     ctl_jobs = [("thread", present[vers[-1]])] + ([("main_thread_only", present[vers[0]])] if not ctx.quick else [])
     res, ctl = tc.run_matrix(jobs, ctl_jobs)
     base = res[0]
